@@ -25,3 +25,13 @@ for e,c in cases:
         print(repr(e[:30]), 'ExpressionError', str(ex)[:60])
     except BaseException as ex:
         print(repr(e[:30]), 'ESCAPE', type(ex).__name__, str(ex)[:60])
+
+# added later: membership on a bytes constant raises ValueError (fixed)
+for e, c in [("300 in b'abc'", {}), ("x not in b'abc'", {"x": 999})]:
+    try:
+        r = evaluate_expression(e, c)
+        print(repr(e), '->', repr(r))
+    except ExpressionError as ex:
+        print(repr(e), 'ExpressionError', str(ex)[:60])
+    except BaseException as ex:
+        print(repr(e), 'ESCAPE', type(ex).__name__, str(ex)[:60])
